@@ -21,6 +21,7 @@ def plan(tier, seed):
     for h in ("h_cat_two_groups", "h_cat_two_groups_rest"):
         jobs.append(ch("C07", "vf/pyshim/h_v2.py", h, t, ["core.read_col (dictionary page of each row group; shared "
                                                           "categorical output)"], env=envc))
+    jobs.append(ch("C07", "vf/pyshim/h_partfile.py", "h_make_part_file", t, ["writer.make_part_file"]))
     from . import cats
     jobs += cats.jobs("C07", tier)
     jobs.append(ch("C07", "vf/pyshim/h_wc.py", "h_cat_dictionary", t,
